@@ -1,7 +1,7 @@
 (** C01 - map semantics match a sorted-map model for every history and key type.
     Statements only; proofs are in Canon.v / Inv.v / Hist.v. *)
 From Coq Require Import List NArith ZArith Bool.
-From Mast Require Import Prim Key Tree KeyOrder Codec Store Diff World Erase Build Spec Canon Level Inv Hist.
+From Mast Require Import Prim Key Tree KeyOrder Codec Store Diff World Erase Build Spec Canon Level Inv Hist Reload WorldInv.
 Import ListNotations.
 
 (** For EVERY key type with a strict total order, every value type with decidable equality, every
@@ -71,8 +71,8 @@ Proof. exact k_make_root_ok. Qed.
 (** Every finite history of new / insert / update / delete / lookup / size / iterate (also stopped
     early) / clone / persist operations on any number of trees, with any branch factor >= 2, both
     node formats and every key kind, observes exactly what the abstract world of sorted association
-    lists observes.  PARTIAL: reload (LoadMast of a persisted root) is not among the supported
-    operations of this theorem yet; it is covered by the correspondence check and by C05's theorems. *)
+    lists observes.  (Both node formats, no side conditions; the theorem with reload is
+    C01_refines_sorted_map below.) *)
 Theorem C01_refines_sorted_map_partial : forall ops,
   forallb supported ops = true ->
   map (fun x => proj (fst x)) (run empty_world ops) = arun [] ops.
@@ -93,6 +93,33 @@ Example C01_example :
   nth 12%nat (arun [] ex_ops) AOk = AFail 1 /\ nth 22%nat (arun [] ex_ops) AOk = AList [].
 Proof. vm_compute. repeat split; reflexivity. Qed.
 
+
+(** FULL history theorem, with persist AND reload, many trees, many stores (binary node format):
+    every finite history of new / insert / update / delete / lookup / size / iterate / seek (also
+    stopped early) / clone / persist / LoadMast of any captured root / entry diff (all four
+    interfaces) observes exactly what the abstract world of sorted association lists observes, and
+    every tree of the resulting world is canonical for its abstract contents.  Side conditions
+    ([conds]): element encodings round-trip under the tree's key kind and sizes fit 64 bits, a root
+    is reloaded from the store and with the key kind it was made with, a diff is between trees over
+    one store, and no two different node encodings written by a persist share a name. *)
+Theorem C01_refines_sorted_map : forall ops w a,
+  winv2 w a -> conds w a ops ->
+  map (fun x => pobs (fst x)) (run w ops) = arun2 a ops /\ winv2 (wrun w ops) (awrun2 a ops).
+Proof. exact history_refines2. Qed.
+
+(** non-vacuity: persist, reload into a second tree, modify, persist again, diff against the first,
+    reload again; the side conditions hold (decided by [condsb]) and the observations are the model's *)
+Definition ex_ops2 : list op :=
+  [ONew 0 0 2 None 1; OIns 0 (KUint 1) [49]; OIns 0 (KUint 2) [50]; OIns 0 (KUint 4) [51]; OMakeRoot 0 0;
+   OLoad 0 1 0 1; OIns 1 (KUint 8) [61]; ODel 1 (KUint 1) [49]; OMakeRoot 1 1; ODiff 1 (Some 0); OLoad 1 2 0 1; OIter 2; OSeek 2 (KUint 3)].
+Example C01_example_reload :
+  conds empty_world ([], []) ex_ops2 /\
+  nth 11%nat (arun2 ([], []) ex_ops2) BOk = BList [(KUint 2, [50]); (KUint 4, [51]); (KUint 8, [61])] /\
+  nth 12%nat (arun2 ([], []) ex_ops2) BOk = BList [(KUint 4, [51]); (KUint 8, [61])] /\
+  map (fun x => pobs (fst x)) (run empty_world ex_ops2) = arun2 ([], []) ex_ops2.
+Proof. split; [apply condsb_ok; vm_compute; reflexivity|]. vm_compute. repeat split; reflexivity. Qed.
+
+
 Print Assumptions C01_get.
 Print Assumptions C01_insert.
 Print Assumptions C01_delete.
@@ -104,3 +131,4 @@ Print Assumptions C01_empty_tree.
 Print Assumptions C01_key_instance.
 Print Assumptions C01_persist_keeps_contents.
 Print Assumptions C01_refines_sorted_map_partial.
+Print Assumptions C01_refines_sorted_map.
